@@ -328,16 +328,40 @@ Fixpoint iterate (tab : list doc) (limit : N) (scan_all : bool) (lids : list N)
 Record prepared := { p_tab : list doc; p_voc : list tok }.
 Definition prepare (c : list doc) : prepared := let t := table c in {| p_tab := t; p_voc := vocab t |}.
 
-Definition search_prepared (p : prepared) (q : query) (from to : N) (rev : bool) (limit : N) (wt : bool)
-  : res (list id * N) :=
+(* the LID stream of the query's eval tree inside the borders of [from,to] *)
+Definition tree_lids (p : prepared) (q : query) (from to : N) (rev : bool) : res (list N) :=
   bind (lids_borders from to (p_tab p)) (fun b =>
-  bind (build_tree (p_voc p) (p_tab p) (fst b) (snd b) q) (fun t =>
-  bind (eval_ntree rev t) (fun lids =>
-  let '(total, ids) := iterate (p_tab p) limit wt lids 0 0 (0, 0) in
-  Ok (ids, if wt then total else 0)))).
+  bind (build_tree (p_voc p) (p_tab p) (fst b) (snd b) q) (fun t => eval_ntree rev t)).
 
-Definition search_model (c : list doc) (q : query) (from to : N) (rev : bool) (limit : N) (wt : bool) :=
-  search_prepared (prepare c) q from to rev limit wt.
+(* hist = SearchParams.HistInterval (0 = no histogram); IsScanAllRequest = WithTotal || HasHist *)
+Definition search_prepared (p : prepared) (q : query) (from to : N) (rev : bool) (limit : N) (wt : bool)
+           (hist : N) : res (list id * N) :=
+  bind (tree_lids p q from to rev) (fun lids =>
+  let '(total, ids) := iterate (p_tab p) limit (wt || (0 <? hist)) lids 0 0 (0, 0) in
+  Ok (ids, if wt then total else 0)).
+
+Definition search_model (c : list doc) (q : query) (from to : N) (rev : bool) (limit : N) (wt : bool)
+           (hist : N) :=
+  search_prepared (prepare c) q from to rev limit wt hist.
+
+(* histogram: with HasHist the loop never stops early and every LID of the stream bumps the bucket
+   mid - mid % interval; kept as an association list sorted by bucket (canonical form of the Go map) *)
+Fixpoint hist_add (b : N) (h : list (N * N)) : list (N * N) :=
+  match h with
+  | [] => [(b, 1)]
+  | (k, n) :: h' => if b <? k then (b, 1) :: h
+                    else if b =? k then (k, n + 1) :: h'
+                    else (k, n) :: hist_add b h'
+  end.
+Definition bucket (interval m : N) : N := m - m mod interval.
+Definition hist_of (interval : N) (mids : list N) : list (N * N) :=
+  fold_left (fun h m => hist_add (bucket interval m) h) mids [].
+
+Definition hist_prepared (p : prepared) (q : query) (from to : N) (rev : bool) (hist : N)
+  : res (list (N * N)) :=
+  if 0 <? hist then
+    bind (tree_lids p q from to rev) (fun lids => Ok (hist_of hist (map (fun l => fst (lid_id (p_tab p) l)) lids)))
+  else Ok [].
 
 (* ---------------------------------------------------------------- the specification *)
 Fixpoint sat (q : query) (d : doc) : bool :=
@@ -376,3 +400,7 @@ Definition search_spec (c : list doc) (q : query) (from to : N) (rev : bool) (li
   let sorted := IdSort.sort (map did m) in
   (firstn (N.to_nat limit) (if rev then List.rev sorted else sorted),
    if wt then N.of_nat (length m) else 0).
+
+(* histogram of the matching DOCUMENTS *)
+Definition hist_spec (c : list doc) (q : query) (from to : N) (hist : N) : list (N * N) :=
+  if 0 <? hist then hist_of hist (map dmid (matching c q from to)) else [].
